@@ -336,6 +336,27 @@ pub fn main(args: &[String]) {
                 }
             }
         }
+        "lettypes" => {
+            // annotations that are definition groups: every pair of a small set of such types, as the declared type of a value,
+            // as a parameter type against an argument, and through an alias; accepted exactly when the two types are the same
+            let types: [(&str, &str); 6] = [
+                ("(t = int; t)", "int"), ("(t = int; u = bool; u)", "bool"), ("(t = int; u = bool; t)", "int"), ("(t = bool; t)", "bool"),
+                ("(t = int; u = int; u)", "int"), ("(t : type = bool; u : type = int; t)", "bool"),
+            ];
+            let val = |g: &str| if g == "int" { "3" } else { "true" };
+            let mut all = vec![];
+            for (a, ga) in types {
+                for (b, _) in types {
+                    all.push(format!("y : {a} = {}; z : {b} = y; z", val(ga)));
+                    all.push(format!("g : ({a} -> int) = (x : {b}) => 1; g {}", val(ga)));
+                    all.push(format!("g = (x : {a}) => x; w : {b} = g {}; w", val(ga)));
+                    all.push(format!("s : type = {a}; y : s = {}; z : {b} = y; z", val(ga)));
+                }
+            }
+            for t in all.into_iter().take(if count == 0 { usize::MAX } else { count }) {
+                emit(t, "lettypes");
+            }
+        }
         "chains" => {
             // arithmetic trees over + - * / with 3..7 literal leaves (divisors are non-zero literals), rendered with the parentheses
             // the tree needs: every way a grouped operand can sit inside a chain of the same or another family
